@@ -240,6 +240,14 @@ Theorem C12_pmis_columns_partition (parts : list nat) (G : list (list nat)) :
     (forall c, c < psum parts -> lonely parts G c = false -> nth c cols None <> None).
 Proof. exact (pmis_columns_partition parts G). Qed.
 
+(* what "lonely" (removed before the rounds, never aggregated in a structurally symmetric world) means: the row of the
+   strength matrix holds nothing but the diagonal; so C12_pmis_partition says: every unknown with a strong connection to
+   another unknown -- on whichever rank -- is in exactly one aggregate *)
+Theorem C12_pmis_lonely_iff_isolated (parts : list nat) (G : list (list nat)) (i : nat) :
+  NoDup (grow G i) -> In i (grow G i) ->
+  (lonely parts G i = false <-> exists c, In c (grow G i) /\ c <> i).
+Proof. exact (lonely_spec parts G i). Qed.
+
 (* rank-count independence does NOT hold (the property allows that): the same graph is aggregated differently under
    different partitions -- path 0-1-2-3: one rank {0,1} {2,3}; ranks [2;2]: {0,1,2,3} *)
 Theorem C12_pmis_depends_on_partition :
@@ -251,4 +259,5 @@ Print Assumptions C12_pmis_round_progress.
 Print Assumptions C12_pmis_terminates.
 Print Assumptions C12_pmis_partition.
 Print Assumptions C12_pmis_columns_partition.
+Print Assumptions C12_pmis_lonely_iff_isolated.
 Print Assumptions C12_pmis_depends_on_partition.
